@@ -1274,11 +1274,14 @@ func (x *Explorer) callKills(st *State, call ssa.CallInstruction) {
 		return
 	}
 	if callee != nil {
-		if callee.Blocks == nil && len(callee.AnonFuncs) == 0 {
-			// external (stdlib) function without source: it cannot write
-			// unexported module fields except through pointers we pass; be
-			// conservative only for escaping locals.
-			x.killEscapedAllocs(st)
+		if !inModule(callee) {
+			// standard library / dependency: it cannot name the module's fields; it can
+			// only reach module code through interface or function values it is given
+			if externalMayCallBack(cc) {
+				x.killMutable(st, nil)
+			} else {
+				x.killEscapedAllocs(st)
+			}
 			return
 		}
 		x.killMutable(st, x.mods.of(callee))
@@ -1467,6 +1470,12 @@ func (m *modInfo) of(fn *ssa.Function) map[*types.Var]bool {
 						continue
 					}
 					if c := cc.StaticCallee(); c != nil {
+						if !inModule(c) {
+							if externalMayCallBack(cc) {
+								all = true
+							}
+							continue
+						}
 						walk(c)
 					} else if cc.IsInvoke() {
 						// interface method: union over module implementations with that method name
@@ -1546,7 +1555,7 @@ func (p *Prog) returnsNonNil1(fn *ssa.Function) bool {
 	}
 	if !inModule(fn) {
 		// standard library / dependency constructors
-		return strings.HasPrefix(fn.Name(), "New")
+		return strings.HasPrefix(fn.Name(), "New") || fn.Name() == "Errorf"
 	}
 	if fn.Blocks == nil {
 		return false
@@ -1591,4 +1600,58 @@ func (p *Prog) returnsNonNil1(fn *ssa.Function) bool {
 		}
 	}
 	return n > 0
+}
+
+// purePkgs: packages whose functions never call methods of the values they are
+// given in a way that could mutate module state (formatting, conversion,
+// synchronisation primitives, time).
+var purePkgs = map[string]bool{"fmt": true, "errors": true, "strconv": true, "bytes": true, "strings": true, "time": true,
+	"sync": true, "sync/atomic": true, "unicode/utf8": true, "math": true, "math/bits": true, "unsafe": true, "sort": true, "slices": true}
+
+// externalMayCallBack: a call into a non-module function can run module code
+// only through an interface or function value among its arguments/receiver.
+func externalMayCallBack(cc *ssa.CallCommon) bool {
+	f := cc.StaticCallee()
+	if f != nil {
+		q := f
+		for q.Parent() != nil {
+			q = q.Parent()
+		}
+		path := ""
+		if q.Pkg != nil {
+			path = q.Pkg.Pkg.Path()
+		} else if o := q.Object(); o != nil && o.Pkg() != nil {
+			path = o.Pkg().Path()
+		}
+		if purePkgs[path] {
+			return false
+		}
+	}
+	for _, a := range cc.Args {
+		if mayHoldModuleCode(a.Type(), 0) {
+			return true
+		}
+	}
+	return false
+}
+
+func mayHoldModuleCode(t types.Type, depth int) bool {
+	if depth > 3 {
+		return true
+	}
+	switch u := t.Underlying().(type) {
+	case *types.Interface, *types.Signature:
+		return true
+	case *types.Pointer:
+		return mayHoldModuleCode(u.Elem(), depth+1)
+	case *types.Slice:
+		return mayHoldModuleCode(u.Elem(), depth+1)
+	case *types.Struct:
+		for i := 0; i < u.NumFields(); i++ {
+			if mayHoldModuleCode(u.Field(i).Type(), depth+1) {
+				return true
+			}
+		}
+	}
+	return false
 }
